@@ -842,7 +842,9 @@ func (repo *GoGitRepo) getClock(name string) (lamport.Clock, error) {
 		repo.clocks[name] = c
 		return c, nil
 	}
-	if err == lamport.ErrClockNotExist {
+	if err == lamport.ErrClockNotExist || err == lamport.ErrClockBroken {
+		// a broken clock is handled like a missing one: it is created again, and
+		// the clock loaders witness the stored entities again
 		return nil, ErrClockNotExist
 	}
 	return nil, err
